@@ -531,7 +531,8 @@ impl<'a> Runner<'a> {
             Op::SA | Op::SB | Op::E(_) => {
                 let which = if op == Op::SB { 1 } else { 0 };
                 *touched = Some(which);
-                let n_exact = if let Op::E(n) = op { Some(n as usize) } else { None };
+                // E(255) stands for usize::MAX ("all that is left")
+                let n_exact = if let Op::E(n) = op { Some(if n == 255 { usize::MAX } else { n as usize }) } else { None };
                 let res = self.r.read_set(which, n_exact);
                 let pos = self.r.position();
                 if self.keep_log {
